@@ -952,30 +952,47 @@ Lemma get_item_index_first : forall items it i, get_item_index items it = Some i
   nth_error items i = Some it /\ forall j, j < i -> nth_error items j <> Some it.
 Proof. intros items it i. unfold get_item_index. apply index_of_spec_g. apply String.eqb_eq. Qed.
 
-Lemma set_item_bare : forall B items it (x v : B) b',
-  set_item items it (BBare x) v = Some b' -> b' = BBare v /\ get_item items it b' = Some v.
+(* single-item mode is decided by the mode: whatever the batch is (bare object, list, tuple), get_item returns the
+   batch itself and set_item the value, provided the item is the mode's item (AssertionError otherwise) *)
+Lemma single_item_mode : forall B s it (b : batch B) v,
+  get_item [s] it b = (if String.eqb s it then Some b else None) /\
+  set_item [s] it b v = (if String.eqb s it then Some (BBare v) else None).
+Proof. intros. unfold get_item, set_item. simpl. destruct (String.eqb s it); split; reflexivity. Qed.
+
+Lemma set_item_single : forall B s it (b : batch B) v b',
+  set_item [s] it b v = Some b' -> s = it /\ b' = BBare v /\ get_item [s] it b' = Some (BBare v).
 Proof.
-  intros B items it x v b' H. simpl in H. destruct (Nat.eqb (length items) 1) eqn:E; [|discriminate].
-  inversion H; subst. split; [reflexivity|]. simpl. rewrite E. reflexivity.
+  intros B s it b v b' H. unfold set_item in H. simpl in H.
+  destruct (String.eqb s it) eqn:E; [|discriminate]. inversion H; subst.
+  split; [now apply String.eqb_eq|]. split; [reflexivity|]. unfold get_item. simpl. now rewrite E.
 Qed.
 
-Lemma set_item_tuple : forall B items it (l : list B) v b',
+Lemma single_item_none : forall items it, List.length items <> 1 -> single_item items it = None.
+Proof. intros [|a [|b r]] it H; simpl in *; try reflexivity. congruence. Qed.
+
+(* several-item modes: the batch must be a list / tuple *)
+Lemma several_items_need_sequence : forall B items it (x v : B), List.length items <> 1 ->
+  get_item items it (BBare x) = None /\ set_item items it (BBare x) v = None.
+Proof. intros. unfold get_item, set_item. now rewrite single_item_none. Qed.
+
+Lemma set_item_tuple : forall B items it (l : list B) v b', List.length items <> 1 ->
   set_item items it (BTuple l) v = Some b' ->
   exists i l', get_item_index items it = Some i /\ b' = BTuple l' /\ length l' = length l /\
     (forall q, nth_error l' q = if Nat.eqb q i then option_map (fun _ => v) (nth_error l q) else nth_error l q) /\
-    (i < length l -> get_item items it b' = Some v) /\
+    (i < length l -> get_item items it b' = Some (BBare v)) /\
     (forall it' j, get_item_index items it' = Some j -> j <> i -> get_item items it' b' = get_item items it' (BTuple l)).
 Proof.
-  intros B items it l v b' H. simpl in H. fold (get_item_index items it) in H.
+  intros B items it l v b' HL H. unfold set_item in H. rewrite single_item_none in H by assumption.
+  fold (get_item_index items it) in H.
   destruct (get_item_index items it) as [i|] eqn:Ei; [|discriminate]. inversion H; subst; clear H.
   exists i, (replace_at 0 i v l). split; [reflexivity|]. split; [reflexivity|]. split; [apply replace_at_length|].
   assert (Hq : forall q, nth_error (replace_at 0 i v l) q =
                          if Nat.eqb q i then option_map (fun _ => v) (nth_error l q) else nth_error l q)
     by (intro q; rewrite replace_at_nth; reflexivity).
   split; [exact Hq|]. split.
-  - intro Hi. simpl. rewrite Ei. rewrite Hq. rewrite Nat.eqb_refl.
+  - intro Hi. unfold get_item. rewrite single_item_none by assumption. rewrite Ei. rewrite Hq. rewrite Nat.eqb_refl.
     destruct (nth_error l i) eqn:E; [reflexivity|]. apply nth_error_None in E. lia.
-  - intros it' j Hj Hne. simpl. rewrite Hj. rewrite Hq.
+  - intros it' j Hj Hne. unfold get_item. rewrite !single_item_none by assumption. rewrite Hj. rewrite Hq.
     destruct (Nat.eqb j i) eqn:E; [apply Nat.eqb_eq in E; contradiction | reflexivity].
 Qed.
 
